@@ -1645,6 +1645,24 @@ func (env *c11Env) genSibling(r *vf.Rand, p c11Conf) (c11Conf, string) {
 	q.Ep.Headers = append([]c11KT(nil), p.Ep.Headers...)
 	q.ID = p.ID + "b"
 
+	if p.Kind == "gen" && r.Chance(30) {
+		// the generic authenticator's key has neither its payload template nor the forwarded names
+		if r.Bool() {
+			q.HasPayload = !p.HasPayload
+			q.Payload = c11Tpl{c11Lit("e="), {K: "auth"}}
+
+			if !q.HasPayload {
+				q.Payload = nil
+			}
+
+			return q, "sibling:gen-payload"
+		}
+
+		q.FwdH = map[int][]string{0: {"X-F1"}, 1: {"X-F2"}, 2: {"X-F2"}}[len(p.FwdH)]
+
+		return q, "sibling:gen-fwd"
+	}
+
 	switch x := r.Intn(100); {
 	case x < 25:
 		return q, "sibling:id"
@@ -2024,6 +2042,11 @@ func (env *c11Env) corpus() []c11Case {
 		// C11-F6 for the generic authenticator (forwarded cookie)
 		{Protos: []c11Conf{genFwd}, Insts: []c11InstSpec{{Proto: 0}}, Tok: tok, Deny: []string{}, Rep: 0,
 			Steps: []c11Step{{Inst: 0, Req: g1, Rel: "first"}, {Inst: 0, Req: g2, Rel: "diff:cookie"}}},
+		// C11-F6, third form: two generic authenticators on one endpoint that differ in the payload template
+		{Protos: []c11Conf{{Kind: "gen", ID: "ga", TTL: five, Ep: c11Ep{URL: c11Tpl{c11Lit(base + "/g/id")}, Headers: []c11KT{{K: "X-Cred", T: c11Tpl{{K: "auth"}}}}}},
+			{Kind: "gen", ID: "gb", TTL: five, HasPayload: true, Payload: c11Tpl{c11Lit("d="), {K: "auth"}}, Ep: c11Ep{URL: c11Tpl{c11Lit(base + "/g/id")}, Headers: []c11KT{{K: "X-Cred", T: c11Tpl{{K: "auth"}}}}}}},
+			Insts: []c11InstSpec{{Proto: 0}, {Proto: 1}}, Tok: tok, Deny: []string{}, Rep: -1,
+			Steps: []c11Step{{Inst: 0, Req: g1, Rel: "first"}, {Inst: 1, Req: g1, Rel: "other-instance+sibling:gen-payload"}}},
 		// C11-F7: .Outputs in the endpoint URL is not in the key
 		{Protos: []c11Conf{outs}, Insts: []c11InstSpec{{Proto: 0}}, Tok: tok, Deny: []string{}, Rep: 0,
 			Steps: []c11Step{{Inst: 0, Req: qA, Rel: "first"}, {Inst: 0, Req: qB, Rel: "diff:out:foo"}}},
